@@ -200,9 +200,17 @@ def run(prop, tier, check=None):
     mc_fail = []
     mc_scenarios = [s for s in scenarios if not s.get("no_mc") and (tier != "quick" or not s.get("large"))]
     check.cov["model_checked_scenarios"] = [s["name"] for s in mc_scenarios]
+    # thorough: at most 20 min per scenario and 80 min for the whole phase (what does not fit is listed under
+    # model_check_timeouts and is still run on the real code and monitored below)
+    budget_end = t0 + (900 if tier == "quick" else 4800)
+
+    def mc_job(s):
+        if time.time() > budget_end:
+            raise ToolError("timeout: model-checking budget of the tier is used up")
+        return model_check(dict(s, defects=[]), prop, 3, 240 if tier == "quick" else 1200)
+    mc_scenarios.sort(key=lambda s: (bool(s.get("large")), s["name"]))
     with cf.ThreadPoolExecutor(max_workers=5) as ex:
-        futs = {ex.submit(model_check, dict(s, defects=[]), prop, 3, 240 if tier == "quick" else 3000): s
-                for s in mc_scenarios}
+        futs = {ex.submit(mc_job, s): s for s in mc_scenarios}
         for fut in cf.as_completed(futs):
             s = futs[fut]
             try:
